@@ -4093,6 +4093,17 @@ func (c *Ctx) ruleFuncFieldNil(rule string) {
 					}
 				}
 			}
+			// ... or the lazy initialisation sits in a helper of the same receiver that every path to the call went through
+			if !okNil {
+				for _, hc := range callsTo(f, func(_ string, cc *ssa.CallCommon) bool {
+					sc := cc.StaticCallee()
+					return sc != nil && sc.Blocks != nil && sc != f && len(cc.Args) > 0 && cc.Args[0] == fa.X && ensuresFieldNonNil(sc, fa.Field)
+				}) {
+					if hcall, isCall := hc.(*ssa.Call); isCall && dominatesInstr(hcall, in) {
+						okNil = true
+					}
+				}
+			}
 			r.Check(okNil, rule, construct, p.InstrPos(in), "called only where the field was found non-nil", "the node calls its func field "+fname+" without having found it non-nil: a node configured without it panics inside the pipeline's goroutine (nothing recovers it) instead of returning an error")
 		})
 	}
@@ -5999,7 +6010,25 @@ func (c *Ctx) rulePositiveExpiration(rule string) {
 	}
 	okPos, nStamp := true, 0
 	tiny := func(caller *ssa.Function, call *ssa.Call, callee *ssa.Function) bool {
-		return PkgPathOf(caller) == PkgPathOf(callee) && len(callee.Blocks) <= 6 // a defaulting helper, not the sweep
+		if PkgPathOf(caller) != PkgPathOf(callee) {
+			return false
+		}
+		if len(callee.Blocks) <= 6 {
+			return true // a defaulting helper, not the sweep
+		}
+		// a longer straight-line initialiser: no loop, no call into the module
+		if len(callee.Blocks) > 24 || len(loopHeaders(callee)) > 0 {
+			return false
+		}
+		leaf := true
+		eachInstr(callee, func(in ssa.Instruction) {
+			if ci, ok := in.(ssa.CallInstruction); ok {
+				if sc := ci.Common().StaticCallee(); sc != nil && sc.Blocks != nil && p.InRepo(sc) {
+					leaf = false
+				}
+			}
+		})
+		return leaf
 	}
 	for _, pa := range c.enum(rule, proc, PathOpts{Inline: tiny}) {
 		stamps := false
@@ -6410,7 +6439,51 @@ func (c *Ctx) rulePanicSafeRelease(rule string, ifacePkgs []string) {
 				return foreign(f, seen)
 			}
 		}
+		fv := cc.Value
+		if ld, ok := fv.(*ssa.UnOp); ok && ld.Op == token.MUL {
+			fv = ld.X
+		}
+		switch fv.(type) {
+		case *ssa.Parameter, *ssa.FreeVar:
+			// a callback handed in by a caller inside the library: the closure is looked at where it is made
+			if fn := ci.Parent(); fn != nil && !apiVisible(fn) {
+				return ""
+			}
+		}
 		return fmt.Sprintf("function value %s called at %s", cc.Value.Name(), p.InstrPos(ci))
+	}
+	// operations that run code chosen by the dynamic type of a user's value without any call being
+	// written: hashing / comparing an interface value (map[Node]..., n1 == n2) panics for a dynamic
+	// type that is not comparable (a struct with a slice, map or func field held by value)
+	implicit := func(in ssa.Instruction) string {
+		isIface := func(t types.Type) bool { return types.IsInterface(t) }
+		switch x := in.(type) {
+		case *ssa.MapUpdate:
+			if mt, ok := x.Map.Type().Underlying().(*types.Map); ok && isIface(mt.Key()) {
+				return fmt.Sprintf("map keyed by the interface type %s is written at %s (hashing panics for a dynamic type that is not comparable)", typeShort(mt.Key()), p.InstrPos(in))
+			}
+		case *ssa.Lookup:
+			if mt, ok := x.X.Type().Underlying().(*types.Map); ok && isIface(mt.Key()) {
+				return fmt.Sprintf("map keyed by the interface type %s is read at %s (hashing panics for a dynamic type that is not comparable)", typeShort(mt.Key()), p.InstrPos(in))
+			}
+		case *ssa.BinOp:
+			if (x.Op == token.EQL || x.Op == token.NEQ) && isIface(x.X.Type()) && isIface(x.Y.Type()) && !isNilConst(x.X) && !isNilConst(x.Y) {
+				return fmt.Sprintf("two interface values are compared at %s (panics when both hold the same type and it is not comparable)", p.InstrPos(in))
+			}
+		}
+		return ""
+	}
+	closureArgs := func(ci ssa.CallInstruction, seen map[*ssa.Function]bool) string {
+		for _, a := range ci.Common().Args {
+			if mc, ok := a.(*ssa.MakeClosure); ok {
+				if f, ok := mc.Fn.(*ssa.Function); ok {
+					if w := foreign(f, seen); w != "" {
+						return p.ShortFn(f) + " -> " + w
+					}
+				}
+			}
+		}
+		return ""
 	}
 	foreign = func(fn *ssa.Function, seen map[*ssa.Function]bool) string {
 		if seen[fn] || fn.Blocks == nil {
@@ -6422,8 +6495,14 @@ func (c *Ctx) rulePanicSafeRelease(rule string, ifacePkgs []string) {
 				if _, isGo := in.(*ssa.Go); isGo {
 					continue
 				}
+				if w := implicit(in); w != "" {
+					return w
+				}
 				if ci, ok := in.(ssa.CallInstruction); ok {
 					if w := foreignCall(ci, seen); w != "" {
+						return w
+					}
+					if w := closureArgs(ci, seen); w != "" {
 						return w
 					}
 				}
@@ -6463,6 +6542,9 @@ func (c *Ctx) rulePanicSafeRelease(rule string, ifacePkgs []string) {
 				var walk func(blk *ssa.BasicBlock, from int)
 				walk = func(blk *ssa.BasicBlock, from int) {
 					for _, x := range blk.Instrs[from:] {
+						if w := implicit(x); w != "" && why == "" {
+							why = w
+						}
 						if cx, ok := x.(ssa.CallInstruction); ok {
 							if o := lockOpOf(cx.Common()); o != nil && !o.Acquire && o.Class == op.Class {
 								return
@@ -6474,6 +6556,9 @@ func (c *Ctx) rulePanicSafeRelease(rule string, ifacePkgs []string) {
 								continue
 							}
 							if w := foreignCall(cx, map[*ssa.Function]bool{}); w != "" && why == "" {
+								why = w
+							}
+							if w := closureArgs(cx, map[*ssa.Function]bool{}); w != "" && why == "" {
 								why = w
 							}
 						}
@@ -7598,4 +7683,527 @@ func (c *Ctx) ruleStatusReadOnly(rule string) {
 	if n < 3 {
 		r.Und(rule, "status-readonly:instance-floor", "", fmt.Sprintf("only %d methods of Status found (Complete, CompleteSinks, getError expected)", n))
 	}
+}
+
+// ruleLazyInitMonotone (C19.lazyinit): gated.Filter has no constructor; Process initialises
+// the fields it finds nil in a first critical section, gives the lock up (the expiry scan takes
+// it itself) and relies on them in later sections — and so does every concurrent call that is
+// between its own sections at that moment. The lazily initialised fields (those stored under a
+// test "field == nil", discovered from the code) are therefore monotone: nothing ever stores
+// nil into them again. A reset in the gap makes another goroutine's call of the func field, or
+// its insert into the map / list, hit nil (panic) or fail an event that is perfectly valid.
+func (c *Ctx) ruleLazyInitMonotone(rule, pkg, owner string) {
+	p, r := c.P, c.R
+	lazy := map[string]bool{}
+	type site struct {
+		f  *ssa.Function
+		st *ssa.Store
+	}
+	var nilStores []site
+	for _, f := range p.FuncsIn(pkg) {
+		eachInstr(f, func(in ssa.Instruction) {
+			st, ok := in.(*ssa.Store)
+			if !ok {
+				return
+			}
+			fa, ok := st.Addr.(*ssa.FieldAddr)
+			if !ok || typeShort(fa.X.Type()) != owner {
+				return
+			}
+			name := fieldName(fa)
+			if isNilConst(st.Val) {
+				nilStores = append(nilStores, site{f, st})
+				return
+			}
+			// guarded by "load(same field) == nil"?
+			for _, b := range f.Blocks {
+				cond, t, _ := condOf(b)
+				bo, isB := cond.(*ssa.BinOp)
+				if !isB || bo.Op != token.EQL || t == nil {
+					continue
+				}
+				x, y := bo.X, bo.Y
+				if isNilConst(x) {
+					x, y = y, x
+				}
+				if !isNilConst(y) {
+					continue
+				}
+				ld, isL := x.(*ssa.UnOp)
+				if !isL || ld.Op != token.MUL {
+					continue
+				}
+				fa2, isF := ld.X.(*ssa.FieldAddr)
+				if !isF || fa2.Field != fa.Field || typeShort(fa2.X.Type()) != owner {
+					continue
+				}
+				if edgeDominates(b, t, st.Block()) {
+					lazy[name] = true
+				}
+			}
+		})
+	}
+	var names []string
+	for n := range lazy {
+		names = append(names, n)
+	}
+	sort.Strings(names)
+	r.Notes = append(r.Notes, rule+": lazily initialised fields of "+owner+": "+strings.Join(names, ", "))
+	if len(lazy) < 3 {
+		r.Und(rule, "instance-floor", "", fmt.Sprintf("only %d lazily initialised fields of %s found (3 confirmed by hand: gated, orderedGated, composeFrom)", len(lazy), owner))
+	}
+	for _, name := range names {
+		bad := false
+		for _, s := range nilStores {
+			if fieldName(s.st.Addr.(*ssa.FieldAddr)) != name {
+				continue
+			}
+			bad = true
+			r.Check(false, rule, p.ShortFn(s.f)+":"+name, p.InstrPos(s.st), "", owner+"."+name+" is initialised lazily (when found nil) in one critical section and relied upon in later ones, but is reset to nil here: a concurrent call that is between its sections finds it nil again — a nil func is called / a nil container is used (panic), or a valid event is refused")
+		}
+		if !bad {
+			r.Check(true, rule, owner+"."+name+":never-reset", "", "a lazily initialised field is never stored nil again", "")
+		}
+	}
+}
+
+// apiVisible: fn can be called from outside the module (exported function, or exported method
+// of an exported type); closures are not.
+func apiVisible(fn *ssa.Function) bool {
+	if fn.Parent() != nil || fn.Object() == nil || !fn.Object().Exported() {
+		return false
+	}
+	if recv := fn.Signature.Recv(); recv != nil {
+		t := recv.Type()
+		if pt, ok := t.(*types.Pointer); ok {
+			t = pt.Elem()
+		}
+		if n, ok := t.(*types.Named); ok {
+			return n.Obj().Exported()
+		}
+		return false
+	}
+	return true
+}
+
+// keyRoot strips conversions, re-slicings and the load of a captured variable: two values with
+// the same root share a backing array.
+func keyRoot(v ssa.Value) ssa.Value {
+	for i := 0; i < 16; i++ {
+		switch x := v.(type) {
+		case *ssa.ChangeType:
+			v = x.X
+		case *ssa.Convert:
+			v = x.X
+		case *ssa.Slice:
+			v = x.X
+		case *ssa.UnOp:
+			if x.Op != token.MUL {
+				return v
+			}
+			switch a := x.X.(type) {
+			case *ssa.Alloc:
+				return a
+			case *ssa.FreeVar:
+				if b := freeVarBinding(a); b != nil {
+					return b
+				}
+				return a
+			}
+			return v
+		default:
+			return v
+		}
+	}
+	return v
+}
+
+// freeVarBinding resolves a captured variable to the cell it is bound to where the closure is made.
+func freeVarBinding(fv *ssa.FreeVar) ssa.Value {
+	fn := fv.Parent()
+	if fn == nil || fn.Parent() == nil {
+		return nil
+	}
+	idx := -1
+	for i, x := range fn.FreeVars {
+		if x == fv {
+			idx = i
+		}
+	}
+	var out ssa.Value
+	eachInstr(fn.Parent(), func(in ssa.Instruction) {
+		if mc, ok := in.(*ssa.MakeClosure); ok && mc.Fn == ssa.Value(fn) && idx >= 0 && idx < len(mc.Bindings) {
+			out = mc.Bindings[idx]
+		}
+	})
+	if inner, ok := out.(*ssa.FreeVar); ok {
+		return freeVarBinding(inner)
+	}
+	return out
+}
+
+// writesInPlace lists the instructions of fn (and, when deep, of the closures it makes) that write
+// into the backing array of a slice: clear(x), copy(x, ...), x[i] = ..., and calls of a function of
+// the module that does one of these to the parameter x is passed as.
+func (c *Ctx) writesInPlace(fn *ssa.Function, deep bool, visit func(in ssa.Instruction, target ssa.Value, inClosure bool)) {
+	var scan func(f *ssa.Function, closure bool)
+	scan = func(f *ssa.Function, closure bool) {
+		eachInstr(f, func(in ssa.Instruction) {
+			switch x := in.(type) {
+			case *ssa.Store:
+				if ia, ok := x.Addr.(*ssa.IndexAddr); ok {
+					if _, isSlice := ia.X.Type().Underlying().(*types.Slice); isSlice {
+						visit(in, ia.X, closure)
+					}
+				}
+			case ssa.CallInstruction:
+				cc := x.Common()
+				if b, ok := cc.Value.(*ssa.Builtin); ok && (b.Name() == "clear" || b.Name() == "copy") && len(cc.Args) > 0 {
+					if _, isSlice := cc.Args[0].Type().Underlying().(*types.Slice); isSlice {
+						visit(in, cc.Args[0], closure)
+					}
+					return
+				}
+				if sc := cc.StaticCallee(); sc != nil && sc.Blocks != nil && c.P.InRepo(sc) && sc != fn {
+					for i, a := range cc.Args {
+						if _, isSlice := a.Type().Underlying().(*types.Slice); !isSlice || i >= len(sc.Params) {
+							continue
+						}
+						prm := sc.Params[i]
+						hit := false
+						c.writesInPlace(sc, false, func(_ ssa.Instruction, t ssa.Value, _ bool) {
+							if keyRoot(t) == ssa.Value(prm) {
+								hit = true
+							}
+						})
+						if hit {
+							visit(in, a, closure)
+						}
+					}
+				}
+			}
+		})
+		if deep {
+			for _, an := range f.AnonFuncs {
+				scan(an, true)
+			}
+		}
+	}
+	scan(fn, false)
+}
+
+// ruleKeyHandedOver (C16.derive <fn>:key-handed-over): (*aead.Wrapper).SetAesGcmKeyBytes keeps
+// the slice it is given (KeyBytes() hands the same array to the HKDF that derives the HMAC key,
+// and re-keying reads it again), so from the hand-over on the bytes belong to the wrapper: the
+// function that derived them never writes into that array afterwards — no clear(), copy() into
+// it, element store or scrubbing helper, neither on a path behind the call nor in anything
+// deferred. A "wipe the key material" clean-up of that slice zeroes the key every value of the
+// event is protected with: the ciphertext no longer decrypts under the wrapper derived from
+// the filter's wrapper and the event id, and every HMAC is keyed with zeros.
+func (c *Ctx) ruleKeyHandedOver(rule string) {
+	p, r := c.P, c.R
+	const sink = "(*github.com/hashicorp/go-kms-wrapping/v2/aead.Wrapper).SetAesGcmKeyBytes"
+	n := 0
+	for _, f := range p.FuncsIn(PkgEncrypt) {
+		if f.Parent() != nil {
+			continue
+		}
+		for _, ci := range callsTo(f, func(nm string, cc *ssa.CallCommon) bool { return nm == sink }) {
+			args := ci.Common().Args
+			if len(args) < 2 {
+				continue
+			}
+			n++
+			root := keyRoot(args[1])
+			construct := p.ShortFn(f) + ":key-handed-over"
+			bad := false
+			c.writesInPlace(f, true, func(in ssa.Instruction, target ssa.Value, inClosure bool) {
+				if keyRoot(target) != root {
+					return
+				}
+				after := inClosure
+				if !inClosure {
+					if _, isDefer := in.(*ssa.Defer); isDefer {
+						after = true
+					} else if in.Block() == ci.Block() {
+						after = instrIndex(in) > instrIndex(ci) || inCycle(in.Block())
+					} else {
+						after = reachableFrom(ci.Block())[in.Block()]
+					}
+				}
+				if !after {
+					return
+				}
+				bad = true
+				r.Check(false, rule, construct, p.InstrPos(in), "", "the key bytes handed to SetAesGcmKeyBytes at "+p.InstrPos(ci)+" are written in place afterwards (the wrapper keeps that very slice: KeyBytes() and the HMAC key derivation read it): the per-event wrapper ends up keyed with other bytes than the ones derived from the filter's wrapper and the event id — values no longer decrypt under the wrapper in force, HMACs are keyed with zeros")
+			})
+			if !bad {
+				r.Check(true, rule, construct, p.InstrPos(ci), "the slice handed to the AEAD wrapper is never written after the hand-over (also not by deferred clean-up)", "")
+			}
+		}
+	}
+	if n < 1 {
+		r.Und(rule, "key-handed-over:instance-floor", "", "no hand-over of key bytes to an AEAD wrapper found (1 confirmed by hand: NewEventWrapper)")
+	}
+}
+
+// ruleSkipIdentity (C09.mark / C10.mark processUnfiltered:skip-identity): the sweep leaves a
+// map entry alone only because a tag already handled it, and it decides that by looking the
+// entry's key up in tMap.filteredFields. The name it looks up is derived from the key's own
+// typed accessors (Value.String, Int, Uint, ... and plain formatting of those): it never goes
+// through Value.Interface / Value.Elem or the fmt verbs, which erase the key's dynamic type —
+// under an interface-typed key "1" and 1 (or two struct keys that print alike) then share a
+// name, and the entry a tag did NOT handle is skipped with its plaintext in place (C09), or a
+// public value next to it is redacted because the lookup of the handled one missed (C10).
+func (c *Ctx) ruleSkipIdentity(rule string) {
+	p, r := c.P, c.R
+	n := 0
+	for _, f := range p.FuncsIn(PkgEncrypt) {
+		eachInstr(f, func(in ssa.Instruction) {
+			lk, ok := in.(*ssa.Lookup)
+			if !ok {
+				return
+			}
+			ld, ok := lk.X.(*ssa.UnOp)
+			if !ok || ld.Op != token.MUL {
+				return
+			}
+			fa, ok := ld.X.(*ssa.FieldAddr)
+			if !ok || fieldName(fa) != "filteredFields" {
+				return
+			}
+			n++
+			erased := ""
+			sawKey := false
+			seen := map[ssa.Value]bool{}
+			var visitFn func(fn *ssa.Function, depth int)
+			var back func(v ssa.Value, depth int)
+			checkCall := func(cc *ssa.CallCommon, pos string, depth int) {
+				name := calleeName(cc)
+				switch {
+				case name == "(reflect.Value).Interface" || name == "(reflect.Value).Elem":
+					if erased == "" {
+						erased = name + " at " + pos
+					}
+				case strings.HasPrefix(name, "fmt.Sprint") || name == "fmt.Sprintf" || name == "fmt.Sprintln":
+					if erased == "" {
+						erased = name + " at " + pos
+					}
+				case name == "(reflect.Value).MapKeys" || name == "(*reflect.MapIter).Key":
+					sawKey = true
+				}
+				if sc := cc.StaticCallee(); sc != nil && sc.Blocks != nil && p.InRepo(sc) && depth < 3 {
+					visitFn(sc, depth+1)
+				}
+			}
+			visitFn = func(fn *ssa.Function, depth int) {
+				eachInstr(fn, func(x ssa.Instruction) {
+					if ci, ok := x.(ssa.CallInstruction); ok {
+						checkCall(ci.Common(), p.InstrPos(x), depth)
+					}
+				})
+			}
+			back = func(v ssa.Value, depth int) {
+				if v == nil || seen[v] || depth > 24 {
+					return
+				}
+				seen[v] = true
+				if call, ok := v.(*ssa.Call); ok {
+					checkCall(&call.Call, p.InstrPos(call), 0)
+					if nm := calleeName(&call.Call); nm == "(reflect.Value).MapKeys" || nm == "(*reflect.MapIter).Key" {
+						return // the key itself: where the map came from is not part of the name's derivation
+					}
+				}
+				if al, ok := v.(*ssa.Alloc); ok {
+					// a local array / cell (the varargs of a formatting call): what is stored into it
+					for _, ref := range nonDebugRefs(al) {
+						switch u := ref.(type) {
+						case *ssa.Store:
+							back(u.Val, depth+1)
+						case *ssa.IndexAddr:
+							for _, r2 := range nonDebugRefs(u) {
+								if st, ok := r2.(*ssa.Store); ok {
+									back(st.Val, depth+1)
+								}
+							}
+						}
+					}
+				}
+				if in, ok := v.(ssa.Instruction); ok {
+					for _, op := range in.Operands(nil) {
+						if op != nil && *op != nil {
+							back(*op, depth+1)
+						}
+					}
+				}
+			}
+			back(lk.Index, 0)
+			construct := p.ShortFn(f) + ":skip-identity"
+			if !sawKey {
+				r.Und(rule, construct, p.InstrPos(in), "the name looked up in filteredFields is not derived from a key of the swept map")
+				return
+			}
+			r.Check(erased == "", rule, construct, p.InstrPos(in), "the name looked up in filteredFields comes from the key's own typed accessors",
+				"the name under which the sweep looks a map key up among the already filtered fields is derived through "+erased+", which erases the key's dynamic type: two different keys (\"1\" and 1 under an interface-typed key, struct keys that print alike) share a name, so an entry no tag handled is skipped with its plaintext in place, or a handled public one is swept and redacted")
+		})
+	}
+	if n < 1 {
+		r.Und(rule, "skip-identity:instance-floor", "", "no lookup in tMap.filteredFields found (1 confirmed by hand: processUnfiltered)")
+	}
+}
+
+// ruleNilHandle (C03.private <fn>:nil-handle): FileSink.f is nil whenever the sink has no file
+// of its own — before the first event, after a failed open or close, and ALWAYS for the
+// /dev/stdout and /dev/stderr specials (open and reopen return nil without opening anything).
+// Writing to a nil *os.File is harmless (os.ErrInvalid), but the methods that read the struct
+// without the validity check — (*os.File).Name — dereference it: such a call sits on the true
+// side of a test "fs.f != nil" of the same function, with no store to the field and no call
+// that may store it in between. A sink runs in a goroutine created by Send, so the nil
+// dereference cannot be recovered by the caller: the process dies.
+func (c *Ctx) ruleNilHandle(rule string) {
+	p, r := c.P, c.R
+	unsafe := map[string]bool{"(*os.File).Name": true}
+	isHandleLoad := func(v ssa.Value) (*ssa.FieldAddr, bool) {
+		ld, ok := v.(*ssa.UnOp)
+		if !ok || ld.Op != token.MUL {
+			return nil, false
+		}
+		fa, ok := ld.X.(*ssa.FieldAddr)
+		if !ok || typeShort(fa.X.Type()) != "eventlogger.FileSink" || fieldName(fa) != "f" {
+			return nil, false
+		}
+		return fa, true
+	}
+	mayStore := func(in ssa.Instruction) bool {
+		switch x := in.(type) {
+		case *ssa.Store:
+			if fa, ok := x.Addr.(*ssa.FieldAddr); ok && typeShort(fa.X.Type()) == "eventlogger.FileSink" && fieldName(fa) == "f" {
+				return true
+			}
+		case ssa.CallInstruction:
+			if sc := x.Common().StaticCallee(); sc != nil && sc.Signature.Recv() != nil && typeShort(sc.Signature.Recv().Type()) == "eventlogger.FileSink" {
+				return true
+			}
+		}
+		return false
+	}
+	n := 0
+	for _, f := range p.FuncsIn(PkgRoot) {
+		for _, ci := range callsTo(f, func(nm string, cc *ssa.CallCommon) bool { return unsafe[nm] }) {
+			args := ci.Common().Args
+			if len(args) == 0 {
+				continue
+			}
+			if _, ok := isHandleLoad(args[0]); !ok {
+				continue
+			}
+			n++
+			guarded := false
+			for _, b := range f.Blocks {
+				cond, t, fb := condOf(b)
+				bo, ok := cond.(*ssa.BinOp)
+				if !ok || (bo.Op != token.NEQ && bo.Op != token.EQL) {
+					continue
+				}
+				x, y := bo.X, bo.Y
+				if isNilConst(x) {
+					x, y = y, x
+				}
+				if !isNilConst(y) {
+					continue
+				}
+				if _, ok := isHandleLoad(x); !ok {
+					continue
+				}
+				side := t
+				if bo.Op == token.EQL {
+					side = fb
+				}
+				if !edgeDominates(b, side, ci.Block()) {
+					continue
+				}
+				// nothing between the test and the call may replace the handle
+				clean := true
+				reach := reachableFrom(side)
+				reach[side] = true
+				for _, bb := range f.Blocks {
+					if !reach[bb] || !side.Dominates(bb) {
+						continue
+					}
+					if bb != ci.Block() && !reachableFrom(bb)[ci.Block()] {
+						continue
+					}
+					for _, in := range bb.Instrs {
+						if bb == ci.Block() && instrIndex(in) >= instrIndex(ci) {
+							break
+						}
+						if mayStore(in) {
+							clean = false
+						}
+					}
+				}
+				if clean {
+					guarded = true
+				}
+			}
+			r.Check(guarded, rule, p.ShortFn(f)+":nil-handle:"+calleeName(ci.Common()), p.InstrPos(ci), "called on the sink's handle only where the same function found it non-nil",
+				calleeName(ci.Common())+" dereferences its receiver, and FileSink.f has not been found non-nil here: the handle is nil before the first open, after a failed open and always for the /dev/stdout and /dev/stderr specials (reopen returns nil without opening) — the nil dereference happens in a goroutine created by Send and takes the process down")
+		}
+	}
+	if n < 1 {
+		r.Und(rule, "nil-handle:instance-floor", "", "no dereferencing call on FileSink.f found (1 confirmed by hand: reopen's os.Stat(fs.f.Name()))")
+	}
+}
+
+// ensuresFieldNonNil: every path through the method tests the receiver's field against nil and
+// stores a non-nil value into it on the nil side; nothing stores nil into it.
+func ensuresFieldNonNil(fn *ssa.Function, field int) bool {
+	if len(fn.Params) == 0 {
+		return false
+	}
+	recv := ssa.Value(fn.Params[0])
+	isField := func(v ssa.Value) bool {
+		fa, ok := v.(*ssa.FieldAddr)
+		return ok && fa.X == recv && fa.Field == field
+	}
+	ok := false
+	for _, b := range fn.Blocks {
+		cond, ts, fs := condOf(b)
+		bo, isB := cond.(*ssa.BinOp)
+		if !isB || (bo.Op != token.EQL && bo.Op != token.NEQ) || !isNilConst(bo.Y) {
+			continue
+		}
+		ld, isL := bo.X.(*ssa.UnOp)
+		if !isL || ld.Op != token.MUL || !isField(ld.X) {
+			continue
+		}
+		nilSide := ts
+		if bo.Op == token.NEQ {
+			nilSide = fs
+		}
+		stores := false
+		for _, x := range nilSide.Instrs {
+			if st, isSt := x.(*ssa.Store); isSt && isField(st.Addr) && !isNilConst(st.Val) {
+				stores = true
+			}
+		}
+		if !stores {
+			continue
+		}
+		all := true
+		for _, ret := range Returns(fn) {
+			if !b.Dominates(ret.Block()) {
+				all = false
+			}
+		}
+		if all {
+			ok = true
+		}
+	}
+	eachInstr(fn, func(in ssa.Instruction) {
+		if st, isSt := in.(*ssa.Store); isSt && isField(st.Addr) && isNilConst(st.Val) {
+			ok = false
+		}
+	})
+	return ok
 }
